@@ -24,6 +24,23 @@ pub enum Case {
 
 pub struct P;
 
+/// a byte string whose Adler-32 is (t2 << 16) | t1: zeros (each adds 1 to the upper half), then
+/// 0xFF bytes and one remainder byte that bring the lower half to t1
+fn adler_prefix(t1: u32, t2: u32) -> Vec<u8> {
+    const M: u32 = 65521;
+    let q = (t1 + M - 1) % M;
+    let mut body = vec![0xffu8; (q / 255) as usize];
+    if q % 255 != 0 {
+        body.push((q % 255) as u8);
+    }
+    let b = adler32_ref(1, &body) >> 16;
+    let k = (t2 + M - b % M) % M;
+    let mut v = vec![0u8; k as usize];
+    v.extend_from_slice(&body);
+    assert_eq!(adler32_ref(1, &v), (t2 << 16) | t1, "harness: adler_prefix construction");
+    v
+}
+
 fn len_strategy(max: u32) -> BoxedStrategy<u32> {
     prop_oneof![4 => 0u32..=70, 3 => proptest::sample::select(vec![5550u32, 5551, 5552, 5553, 5554, 11103, 11104, 11105, 65535, 65536, 65537, 15, 16, 17, 31, 32, 33, 63, 64, 65, 127, 128, 129]), 2 => 0u32..=6000, 1 => 0u32..=max].boxed()
 }
@@ -62,7 +79,15 @@ impl Prop for P {
                     1 => vec![0xff; n],
                     _ => vec![0; n],
                 };
-                let pre: Vec<u8> = (0..*prefix as usize % 7001).map(|i| if *fill == 1 { 0xff } else { (i as u64 ^ seed) as u8 }).collect();
+                // one case in four: a prefix whose Adler-32 is a special running value (0, a zero half,
+                // both halves at their maximum) - legal starting values like any other
+                let pre: Vec<u8> = if *prefix % 4 == 3 {
+                    let (t1, t2) = [(0u32, 0u32), (0, 1 + (*seed % 65520) as u32), (1 + (*seed % 65520) as u32, 0), (65520, 65520)][(*prefix as usize / 4) % 4];
+                    cx.class(&format!("sums:special-start:{}", ["zero", "s1=0", "s2=0", "both-max"][(*prefix as usize / 4) % 4]));
+                    adler_prefix(t1, t2)
+                } else {
+                    (0..*prefix as usize % 7001).map(|i| if *fill == 1 { 0xff } else { (i as u64 ^ seed) as u8 }).collect()
+                };
                 let mut cs: Vec<usize> = cuts.iter().map(|&c| c as usize % (n + 1)).collect();
                 cs.sort();
                 cs.push(n);
